@@ -692,6 +692,52 @@ pub fn run(cfg: &Config) -> i32 {
 	});
 	total.merge(rep);
 
+	// \u escapes at the boundaries of the surrogate ranges (and of the other classes the string reader
+	// distinguishes): every sequence of one, two and three escapes over a boundary set, complete and cut
+	// short, as a string value and as a key. Arithmetic on an escape that slipped into the wrong range
+	// (`low - 0xdc00` with low = 0xdbff) panics only in a build with overflow checks, and only for these.
+	{
+		const B: [&str; 19] = [
+			"0000", "001f", "0020", "007f", "0080", "d7ff", "d800", "d801", "dbfe", "dbff", "dc00", "dc01", "dffe", "dfff", "e000", "fffe",
+			"ffff", "DBFF", "DC00",
+		];
+		let triples = !cfg!(miri) && !(cfg.san && !thorough);
+		let n_first = B.len();
+		let rep = parallel(cfg.threads, n_first, |i| {
+			let mut rep = Report::new();
+			let mut rd = Reader::new();
+			let mut n = 0u64;
+			let mut bodies: Vec<String> = vec![format!("\\u{}", B[i])];
+			for b in B {
+				bodies.push(format!("\\u{}\\u{}", B[i], b));
+				// second escape cut short, replaced by another escape kind, or separated by a raw character
+				bodies.push(format!("\\u{}\\u{}", B[i], &b[..2]));
+				bodies.push(format!("\\u{}\\n\\u{}", B[i], b));
+				bodies.push(format!("\\u{}x\\u{}", B[i], b));
+				if triples {
+					for c in B {
+						bodies.push(format!("\\u{}\\u{}\\u{}", B[i], b, c));
+					}
+				}
+			}
+			bodies.push(format!("\\u{}\\u", B[i]));
+			bodies.push(format!("\\u{}\\", B[i]));
+			for body in &bodies {
+				for doc in [format!("\"{}\"", body), format!("{{\"{}\":0}}", body), format!("\"{}", body)] {
+					feed(&mut rep, "escape-boundaries", doc.as_bytes(), &mut rd);
+					n += 1;
+				}
+			}
+			if i == 9 {
+				rep.sample(json!({"family": "escape-boundaries", "input": show(format!("\"{}\"", bodies[2]).as_bytes())}));
+			}
+			rep.distinct_by_construction(n);
+			rep.count("family:escape-boundaries", n);
+			rep
+		});
+		total.merge(rep);
+	}
+
 	// corpus: every prefix and single-byte edits
 	let corpus = std::sync::Arc::new(gen::load_corpus(&cfg.repo_dir));
 	if corpus.is_empty() {
